@@ -1115,16 +1115,22 @@ template <class K> Result execAssign(const std::string& op, const std::vector<st
 // line:   <K> seq <decl> <decl> ... : <op>;<op>;...
 // decl  = FV n list | DV n list | SC 1 list | SCC 1 list                (SC = scalar variable s + Impl::asVector(s); SCC = view of the const scalar)
 //       | FM r c list | DM r c list | DG n n list | SV 1 1 list | SVC 1 1 list   (SV = scalar variable s + Impl::asMatrix(s))
-//       | TV i                                                         (transposedView of matrix object i, created before the first op)
+//       | TV i | TW i                                                  (a transposed view of matrix object i, created before the first op:
+//                                                                        TV = transposedView(A), TW = transpose(r) with a const lvalue std::reference_wrapper r = std::cref(A))
 // op    = asg t s | fill t k | add t s | sub t s | axpy t k s | scale t k | lmul t s | rmul t s | <kernel> a alpha x y
-//         (object t = object s; t = k; t += s; t -= s; t.axpy(k,s); t *= k; t.leftmultiply(s); t.rightmultiply(s); a.kernel([alpha,] x, y))
+//         | rasg t i s j | raxpy t i k s j
+//         (object t = object s; t = k; t += s; t -= s; t.axpy(k,s); t *= k; t.leftmultiply(s); t.rightmultiply(s); a.kernel([alpha,] x, y);
+//          rows of matrix objects as vectors: t[i] = s[j]; t[i].axpy(k, s[j]))
 // answer: per op the storage of every object "[..]|[..]|-" (a TV has none: "-"), ops joined by ';'
 namespace sq {
 
 // vector tags: 0 DV, 1..3 FV<n>, 4 SC, 5 SCC       matrix tags: 0 FM11, 1 FM22, 2 DM, 3 DG2, 4 SV, 5 SVC
 constexpr int vDV = 0, vSC = 4, vSCC = 5;
 constexpr int mFM11 = 0, mFM22 = 1, mDM = 2, mDG2 = 3, mSV = 4, mSVC = 5;
-enum OpK { oAsg, oFill, oAdd, oSub, oAxpy, oScale, oLmul, oRmul };
+enum OpK { oAsg, oFill, oAdd, oSub, oAxpy, oScale, oLmul, oRmul, oRasg, oRaxpy };
+// the kind of vector a row of a matrix object is (FieldMatrix<K,n,n>: FieldVector<K,n>; DynamicMatrix: DynamicVector; a scalar
+// matrix view: the scalar vector view it holds), as a vector tag
+constexpr int rowTag(int m) { return m == mFM11 ? 1 : m == mFM22 ? 2 : m == mDM ? vDV : m == mSV ? vSC : m == mSVC ? vSCC : -1; }
 
 // which pairs (target, source) of vector objects an operation is executed for (sizes must agree as well)
 constexpr bool vecPairOk(int op, int t, int s) {
@@ -1209,10 +1215,15 @@ template <class K, class KK> struct MatView : Reg<K> {
   std::vector<K> store() const override { return {s}; }
   std::vector<K> via() const override { return {o[0][0]}; }
 };
-template <class K, class M> struct TVReg : Reg<K> {
-  using V = decltype(Dune::transposedView(std::declval<const M&>()));
+// the two ways of making a view that refers to a matrix (they need not have the same type)
+template <class M> auto makeView(const M& m, IC<0>) { return Dune::transposedView(m); }
+// (only a CONST lvalue reference_wrapper selects transpose(const std::reference_wrapper<Matrix>&); a prvalue or a non-const
+// lvalue selects the generic transpose(Matrix&&), as transposedView does)
+template <class M> auto makeView(const M& m, IC<1>) { const auto r = std::cref(m); return Dune::transpose(r); }
+template <class K, class M, int SP> struct TVReg : Reg<K> {
+  using V = decltype(makeView(std::declval<const M&>(), IC<SP>{}));
   V o;
-  explicit TVReg(const M& m) : o(Dune::transposedView(m)) {}
+  explicit TVReg(const M& m) : o(makeView(m, IC<SP>{})) {}
   std::vector<K> store() const override { return {}; }
   std::vector<K> via() const override { auto D = o.asDense(); return rawMat<K>(D); }   // row-major, shape c x r of the wrapped object
 };
@@ -1253,13 +1264,14 @@ template <class K, class F> bool visitMat(Reg<K>& g, F&& f) {   // owning matric
   if (auto* p = dynamic_cast<MatView<K, const K>*>(&g)) { f(p->o); return true; }
   return false;
 }
-template <class K, class F> bool visitTV(Reg<K>& g, F&& f) {
-  if (auto* p = dynamic_cast<TVReg<K, Dune::DynamicMatrix<K>>*>(&g)) { f(p->o); return true; }
-  if (auto* p = dynamic_cast<TVReg<K, Dune::FieldMatrix<K, 2, 2>>*>(&g)) { f(p->o); return true; }
-  if (auto* p = dynamic_cast<TVReg<K, Dune::DiagonalMatrix<K, 2>>*>(&g)) { f(p->o); return true; }
-  if (auto* p = dynamic_cast<TVReg<K, Dune::Impl::ScalarMatrixView<K>>*>(&g)) { f(p->o); return true; }
+template <class K, int SP, class F> bool visitTVs(Reg<K>& g, F&& f) {
+  if (auto* p = dynamic_cast<TVReg<K, Dune::DynamicMatrix<K>, SP>*>(&g)) { f(p->o); return true; }
+  if (auto* p = dynamic_cast<TVReg<K, Dune::FieldMatrix<K, 2, 2>, SP>*>(&g)) { f(p->o); return true; }
+  if (auto* p = dynamic_cast<TVReg<K, Dune::DiagonalMatrix<K, 2>, SP>*>(&g)) { f(p->o); return true; }
+  if (auto* p = dynamic_cast<TVReg<K, Dune::Impl::ScalarMatrixView<K>, SP>*>(&g)) { f(p->o); return true; }
   return false;
 }
+template <class K, class F> bool visitTV(Reg<K>& g, F&& f) { return visitTVs<K, 0>(g, f) || visitTVs<K, 1>(g, f); }
 
 // declared objects of one case (plain description; the generator works on these as well)
 struct Decl { std::string kind; bool isVec = false, isTV = false; int tag = 0, r = 1, c = 1, wraps = -1; };
@@ -1276,7 +1288,7 @@ inline bool declShape(Decl& d) {   // fills tag / isVec from kind + shape; false
   if (k == "SVC") { d.tag = mSVC; return d.r == 1 && d.c == 1; }
   return false;
 }
-struct Op { std::string name; int kind = -1; const KDef* kd = nullptr; int t = -1, s = -1, a = -1, x = -1, y = -1; };
+struct Op { std::string name; int kind = -1; const KDef* kd = nullptr; int t = -1, s = -1, a = -1, x = -1, y = -1, i = -1, j = -1; };
 // is the operation executed for these objects?  (shared by generator and executor; the Lean driver has the same table)
 inline bool opOk(const std::vector<Decl>& d, const Op& o) {
   auto in = [&](int i) { return i >= 0 && i < (int)d.size(); };
@@ -1296,6 +1308,11 @@ inline bool opOk(const std::vector<Decl>& d, const Op& o) {
   if (o.kind == oFill || o.kind == oScale) return T.isVec ? T.tag != vSCC : T.tag != mSVC;
   if (!in(o.s) || o.s == o.t || d[o.s].isTV) return false;
   const Decl& S = d[o.s];
+  if (o.kind == oRasg || o.kind == oRaxpy) {
+    if (T.isVec || S.isVec || T.tag == mDG2 || S.tag == mDG2) return false;
+    if (o.i < 0 || o.i >= T.r || o.j < 0 || o.j >= S.r || T.c != S.c) return false;
+    return vecPairOk(o.kind == oRasg ? oAsg : oAxpy, rowTag(T.tag), rowTag(S.tag));
+  }
   if (T.isVec != S.isVec || T.r != S.r || T.c != S.c) return false;
   if (T.isVec) return o.kind != oLmul && o.kind != oRmul && vecPairOk(o.kind, T.tag, S.tag);
   if ((o.kind == oLmul || o.kind == oRmul) && (T.r != T.c || T.tag == mDG2 || S.tag == mDG2)) return false;
@@ -1324,7 +1341,7 @@ template <class K> Result exec(const std::vector<std::string>& w, const std::str
   for (; p < w.size() && w[p] != ":";) {
     Decl d;
     d.kind = w[p];
-    if (d.kind == "TV") {
+    if (d.kind == "TV" || d.kind == "TW") {
       if (p + 2 > w.size()) return badOp("seq declaration");
       try { d.wraps = std::stoi(w[p + 1]); } catch (...) { return badOp("seq declaration"); }
       if (d.wraps < 0 || d.wraps >= (int)decl.size()) return badOp("TV of an undeclared object");
@@ -1368,12 +1385,16 @@ template <class K> Result exec(const std::vector<std::string>& w, const std::str
     else if (d.kind == "DG") { PM<K> m; m.base = "DG"; m.r = d.r; m.c = d.c; m.e = e; auto* q = new MatOwn<K, Dune::DiagonalMatrix<K, 2>>(); fillMat<K>(q->o, m); g.reset(q); }
     else if (d.kind == "SV") g.reset(new MatView<K, K>(e[0]));
     else if (d.kind == "SVC") g.reset(new MatView<K, const K>(e[0]));
-    else if (d.kind == "TV") {
+    else if (d.isTV) {
       Reg<K>& B = *reg[d.wraps];
-      if (auto* b = dynamic_cast<MatOwn<K, Dune::DynamicMatrix<K>>*>(&B)) g.reset(new TVReg<K, Dune::DynamicMatrix<K>>(b->o));
-      else if (auto* b = dynamic_cast<MatOwn<K, Dune::FieldMatrix<K, 2, 2>>*>(&B)) g.reset(new TVReg<K, Dune::FieldMatrix<K, 2, 2>>(b->o));
-      else if (auto* b = dynamic_cast<MatOwn<K, Dune::DiagonalMatrix<K, 2>>*>(&B)) g.reset(new TVReg<K, Dune::DiagonalMatrix<K, 2>>(b->o));
-      else if (auto* b = dynamic_cast<MatView<K, K>*>(&B)) g.reset(new TVReg<K, Dune::Impl::ScalarMatrixView<K>>(b->o));
+      auto mk = [&](auto SP) {
+        constexpr int sp = decltype(SP)::value;
+        if (auto* b = dynamic_cast<MatOwn<K, Dune::DynamicMatrix<K>>*>(&B)) g.reset(new TVReg<K, Dune::DynamicMatrix<K>, sp>(b->o));
+        else if (auto* b = dynamic_cast<MatOwn<K, Dune::FieldMatrix<K, 2, 2>>*>(&B)) g.reset(new TVReg<K, Dune::FieldMatrix<K, 2, 2>, sp>(b->o));
+        else if (auto* b = dynamic_cast<MatOwn<K, Dune::DiagonalMatrix<K, 2>>*>(&B)) g.reset(new TVReg<K, Dune::DiagonalMatrix<K, 2>, sp>(b->o));
+        else if (auto* b = dynamic_cast<MatView<K, K>*>(&B)) g.reset(new TVReg<K, Dune::Impl::ScalarMatrixView<K>, sp>(b->o));
+      };
+      if (d.kind == "TV") mk(IC<0>{}); else mk(IC<1>{});
     }
     if (!g) return badOp("seq object not instantiated");
     g->kind = d.kind; g->isVec = d.isVec; g->isTV = d.isTV; g->tag = d.tag; g->r = d.r; g->c = d.c; g->wraps = d.wraps;
@@ -1412,6 +1433,8 @@ template <class K> Result exec(const std::vector<std::string>& w, const std::str
       o.kind = o.name == "fill" ? oFill : oScale;
       okp = t.size() == 3 && idx(t[1], o.t) && scal(t[2]);
     } else if (o.name == "axpy") { o.kind = oAxpy; okp = t.size() == 4 && idx(t[1], o.t) && scal(t[2]) && idx(t[3], o.s); }
+    else if (o.name == "rasg") { o.kind = oRasg; okp = t.size() == 5 && idx(t[1], o.t) && idx(t[2], o.i) && idx(t[3], o.s) && idx(t[4], o.j); }
+    else if (o.name == "raxpy") { o.kind = oRaxpy; okp = t.size() == 6 && idx(t[1], o.t) && idx(t[2], o.i) && scal(t[3]) && idx(t[4], o.s) && idx(t[5], o.j); }
     else if ((o.kd = kdef(o.name))) okp = t.size() == 5 && idx(t[1], o.a) && scal(t[2]) && idx(t[3], o.x) && idx(t[4], o.y);
     if (!okp) return badOp("seq operation '" + segs[si] + "'");
     if (!opOk(decl, o)) return badOp("seq operation '" + segs[si] + "' is not executed for these objects");
@@ -1445,6 +1468,8 @@ template <class K> Result exec(const std::vector<std::string>& w, const std::str
         else if (o.kind == oAdd) { for (size_t i = 0; i < T.a.size(); ++i) T.a[i] = T.a[i] + S.a[i]; }
         else if (o.kind == oSub) { for (size_t i = 0; i < T.a.size(); ++i) T.a[i] = T.a[i] - S.a[i]; }
         else if (o.kind == oAxpy) { for (size_t i = 0; i < T.a.size(); ++i) T.a[i] = T.a[i] + k * S.a[i]; }
+        else if (o.kind == oRasg) { for (int c = 0; c < T.c; ++c) T(o.i, c) = S(o.j, c); }
+        else if (o.kind == oRaxpy) { for (int c = 0; c < T.c; ++c) T(o.i, c) = T(o.i, c) + k * S(o.j, c); }
         else if (o.kind == oLmul) T = mulOracle<K>(S, Full<K>(T));
         else if (o.kind == oRmul) T = mulOracle<K>(Full<K>(T), S);
         stat("seq" + o.name + "_" + decl[o.t].kind + "," + decl[o.s].kind);
@@ -1515,6 +1540,14 @@ template <class K> Result exec(const std::vector<std::string>& w, const std::str
           if constexpr (matPairOk(oLmul, tt, st) && tt != mDG2) {
             if (o.kind == oLmul) { auto& R = T.leftmultiply(S); ran = (&R == &T); }
             else if (o.kind == oRmul) { auto& R = T.rightmultiply(S); ran = (&R == &T); }
+          }
+          if constexpr (tt != mDG2 && st != mDG2 && tt != mSVC) {
+            if constexpr (vecPairOk(oAsg, rowTag(tt), rowTag(st))) {
+              if (o.kind == oRasg) { auto&& row = T[o.i]; auto& R = (row = S[o.j]); ran = ((const void*)&R == (const void*)&row); }
+            }
+            if constexpr (vecPairOk(oAxpy, rowTag(tt), rowTag(st))) {
+              if (o.kind == oRaxpy) { auto&& row = T[o.i]; auto& R = row.axpy(k, S[o.j]); ran = ((const void*)&R == (const void*)&row); }
+            }
           }
         });
       });
@@ -1697,9 +1730,9 @@ static std::string genSeq(Rng& r, Gen& g) {
         for (size_t j = 0; j < d.size(); ++j)
           if (!d[j].isVec && !d[j].isTV && (d[j].tag == mFM22 || d[j].tag == mDM || d[j].tag == mDG2 || d[j].tag == mSV)) cand.push_back((int)j);
         if (cand.empty()) { --i; if (r.coin(1, 4)) ++i; continue; }
-        Decl q; q.kind = "TV"; q.isTV = true; q.wraps = cand[r.below(cand.size())]; q.r = d[q.wraps].r; q.c = d[q.wraps].c;
+        Decl q; q.kind = r.coin() ? "TV" : "TW"; q.isTV = true; q.wraps = cand[r.below(cand.size())]; q.r = d[q.wraps].r; q.c = d[q.wraps].c;
         d.push_back(q);
-        os << " TV " << q.wraps;
+        os << " " << q.kind << " " << q.wraps;
       } else if (fam == 1) put(k, 1, 1);
       else if (fam == 2) { if (k == "FV" || k == "DV") put(k, 1, 2); else put(k, 2, 2); }
       else if (k == "DVr") put("DV", 1, rr);
@@ -1711,7 +1744,7 @@ static std::string genSeq(Rng& r, Gen& g) {
     }
     if (d.size() < 2) continue;
     static const std::vector<std::string> names = {"asg", "asg", "asg", "asg", "fill", "add", "add", "sub", "axpy", "scale", "lmul", "rmul",
-                                                   "kern", "kern", "kern", "kern"};
+                                                   "kern", "kern", "kern", "kern", "rasg", "rasg", "raxpy"};
     int nops = 1 + (int)r.below(8), made = 0;
     const int n = (int)d.size();
     std::ostringstream ops;
@@ -1728,9 +1761,13 @@ static std::string genSeq(Rng& r, Gen& g) {
           }
         } else {
           o.kind = o.name == "asg" ? oAsg : o.name == "fill" ? oFill : o.name == "add" ? oAdd : o.name == "sub" ? oSub : o.name == "axpy" ? oAxpy
-                 : o.name == "scale" ? oScale : o.name == "lmul" ? oLmul : oRmul;
-          const bool unary = o.kind == oFill || o.kind == oScale;
-          for (o.t = 0; o.t < n; ++o.t) for (o.s = 0; o.s < (unary ? 1 : n); ++o.s) if (opOk(d, o)) cand.push_back(o);
+                 : o.name == "scale" ? oScale : o.name == "lmul" ? oLmul : o.name == "rmul" ? oRmul : o.name == "rasg" ? oRasg : oRaxpy;
+          const bool unary = o.kind == oFill || o.kind == oScale, rows = o.kind == oRasg || o.kind == oRaxpy;
+          for (o.t = 0; o.t < n; ++o.t)
+            for (o.s = 0; o.s < (unary ? 1 : n); ++o.s) {
+              if (rows) { o.i = (int)r.below(std::max(1, d[o.t].r)); o.j = (int)r.below(std::max(1, d[o.s].r)); }
+              if (opOk(d, o)) cand.push_back(o);
+            }
         }
         if (cand.empty()) continue;
         if (o.kd && r.coin()) {   // prefer a view as the matrix operand when one is available
@@ -1743,6 +1780,8 @@ static std::string genSeq(Rng& r, Gen& g) {
         if (o.kd) t << o.kd->name << " " << o.a << " " << g.scalars(1) << " " << o.x << " " << o.y;
         else if (o.kind == oFill || o.kind == oScale) t << o.name << " " << o.t << " " << g.scalars(1);
         else if (o.kind == oAxpy) t << o.name << " " << o.t << " " << g.scalars(1) << " " << o.s;
+        else if (o.kind == oRasg) t << o.name << " " << o.t << " " << o.i << " " << o.s << " " << o.j;
+        else if (o.kind == oRaxpy) t << o.name << " " << o.t << " " << o.i << " " << g.scalars(1) << " " << o.s << " " << o.j;
         else t << o.name << " " << o.t << " " << o.s;
         ops << (made ? ";" : "") << t.str();
         ++made;
